@@ -310,7 +310,53 @@ def fam_jitter(ctx, rng):
         ctx.violation(kind + ':area', 'area changed by more than tol*perimeter', desc)
 
 
-FAMILIES = [(fam_polygon, 120), (fam_polyline, 50), (fam_jitter, 40)]
+def fam_small_features(ctx, rng):
+    """large outlines carrying small square bumps / notches whose side is only 1.5..8 tolerances: every corner of such a feature is
+    farther than the tolerance from the chord of its neighbours and is kept; exactly collinear points on the long edges go"""
+    W, H = float(rng.randint(6, 40)), float(rng.randint(6, 40))
+    corners = [(0.0, 0.0), (W, 0.0), (W, H), (0.0, H)]
+    base, loop = [], []
+    for i in range(4):
+        a, b = corners[i], corners[(i + 1) % 4]
+        L = W if i % 2 == 0 else H
+        ux, uy = (b[0] - a[0]) / L, (b[1] - a[1]) / L          # edge direction; outward normal of a ccw rectangle is (uy, -ux)
+        base.append(a); loop.append(a)
+        feats = sorted(rng.sample(range(1, int(L) - 1), rng.choice([0, 1, 1, 2]) if L > 4 else 0))
+        for f0 in feats:
+            sd = rng.choice([8, 9, 10, 12, 16, 24, 40]) / 512.0
+            sg = rng.choice([1, -1])                             # bump (outward) or notch (inward)
+            q0 = (a[0] + ux * f0, a[1] + uy * f0); q3 = (a[0] + ux * (f0 + sd), a[1] + uy * (f0 + sd))
+            q1 = (q0[0] + sg * uy * sd, q0[1] - sg * ux * sd); q2 = (q3[0] + sg * uy * sd, q3[1] - sg * ux * sd)
+            if rng.random() < 0.5:
+                m = (a[0] + ux * (f0 - 0.5), a[1] + uy * (f0 - 0.5)); loop.append(m)    # exactly collinear point on the long edge
+            for q_ in (q0, q1, q2, q3):
+                base.append(q_); loop.append(q_)
+    if rng.random() < 0.5:
+        loop = loop[::-1]; base = base[::-1]
+    k = rng.randrange(len(loop)); loop = loop[k:] + loop[:k]
+    if len(base) == 4:
+        return
+    target = rng.choice(['Polygon2D', 'Face3D'])
+    desc = {'class': target, 'loop': loop, 'base': base, 'rotation': k, 'tolerance': TOL}
+    ctx.count('clean.small_features.' + target, key=(len(base), len(loop), k), sample=desc, nontrivial=True)
+    kind = '%s.remove_colinear_vertices:small_features' % target
+    try:
+        if target == 'Polygon2D':
+            r1 = Polygon2D([P2(p) for p in loop]).remove_colinear_vertices(TOL)
+            res = [tuple(p) for p in r1.vertices]
+        else:
+            z = G.dy(rng.uniform(-10, 10))
+            r1 = Face3D([P3((p[0], p[1], z)) for p in loop]).remove_colinear_vertices(TOL)
+            res = [(p.x, p.y) for p in r1.boundary]
+    except Exception as e:
+        ctx.violation(kind + ':raises', '%r' % (e,), desc); return
+    if not (cyclic_equal(res, base) or (target == 'Face3D' and cyclic_equal(res, base[::-1]))):
+        missing = [p for p in base if p not in res]
+        ctx.violation(kind + (':corner_removed' if missing else ':redundant_kept'), 'result has %d vertices, the shape has %d corners; removed corners %s' % (
+            len(res), len(base), missing[:4]), desc)
+
+
+FAMILIES = [(fam_polygon, 120), (fam_polyline, 50), (fam_jitter, 40), (fam_small_features, 40)]
 
 
 def explore(ctx):
